@@ -93,6 +93,9 @@ inductive Stmt
   one), each under its own try/except: nothing of this object is involved.  `k` names the statement list;
   the driver replays the lists, in the order the log shows them, on a second, independent world. -/
   | other (k : Nat)
+  /-- `type(obj).p = v` while `obj` is an instance (no class-level watchers here): the class default changes;
+  the instance shows it iff it has never been assigned `p` itself.  Nothing is dispatched on the instance. -/
+  | clsSet (p : Nat) (v : Int)
   deriving Repr
 
 /-- static part: bounds per parameter and the callback programs -/
@@ -131,6 +134,9 @@ structure World where
   ncalls : Nat := 0            -- number of callback invocations so far (ghost)
   /-- number of registrations so far: the identity given to the next Watcher object -/
   nreg : Nat := 0
+  /-- parameters that have been assigned on the object itself (an entry in the instance's `values`); the
+  others show the class-level default and follow it when it is re-assigned (`Stmt.clsSet`) -/
+  owned : List Nat := []
   deriving Repr
 
 /-- what a run leaves in the log; a tree, because callbacks nest -/
@@ -310,6 +316,10 @@ def run (c : Cfg) : Nat → Call → World → Res × World × List Item
       (.ok, { w with regs := w.regs.filter (fun x => x.id ≠ wid) },
         [.stmt "unwatch" wid 0 0 w.batch w.trigger [] [] .ok])
     | .stmt (.other k) => (.ok, w, [.stmt "other" k 0 0 w.batch w.trigger [] [] .ok])
+    | .stmt (.clsSet p v) =>
+      -- (an Event parameter resets itself at class level too: the instance keeps reading False)
+      (.ok, { w with vals := if c.isEvent p || w.owned.contains p then w.vals else w.vals.set p v },
+        [.stmt "clsSet" p (getVal w p) v w.batch w.trigger [] [] .ok])
     | .stmt .raise => (.raised .boom, w, [])
     | .stmt .raiseBase => (.raised .base, w, [])
     | .stmt (.try_ body) =>
@@ -334,7 +344,7 @@ def run (c : Cfg) : Nat → Call → World → Res × World × List Item
       if !c.valid p v then (.raised .value, w, [])
       else
         let old := getVal w p
-        let w1 := { w with vals := w.vals.set p v }
+        let w1 := { w with vals := w.vals.set p v, owned := p :: w.owned }
         let ws := regsFor w p
         if ws.isEmpty then (.ok, w1, [])          -- no watcher: no event object, no flush
         else
